@@ -97,7 +97,13 @@ func execC09(ctx *Ctx, in *Input) *Result {
 			if len(a.Goto[q]) != len(want) {
 				return fail("transition-count", "state %d has %d transitions, should have %d", q, len(a.Goto[q]), len(want))
 			}
-			for ysym, to := range a.Goto[q] {
+			var ysyms []int
+			for ysym := range a.Goto[q] {
+				ysyms = append(ysyms, ysym)
+			}
+			sort.Ints(ysyms)
+			for _, ysym := range ysyms {
+				to := a.Goto[q][ysym]
 				rs := m.Y2R[ysym]
 				if rs < 0 {
 					return fail("transition-symbol", "state %d has a transition on unknown symbol id %d", q, ysym)
